@@ -34,7 +34,7 @@ Same(ok, why) == R(ok, why, aval, hval, dval)
 SetD(ok, why, id, dd) == R(ok, why, aval, hval, [dval EXCEPT ![id] = dd])
 
 ShapeA(v, obs) == /\ Len(obs) = Copies(D, v)
-                  /\ \A c \in DOMAIN obs : Len(obs[c]) = D.avars[v].f.n /\ \A i \in DOMAIN obs[c] : IsWord(obs[c][i])
+                  /\ \A c \in DOMAIN obs : Len(obs[c]) = Len(VLetters(D.avars[v].f)) /\ \A i \in DOMAIN obs[c] : IsWord(obs[c][i])
 
 StructOk(s) ==      \* s = [py, prog (offsets), sizes (letters), base, total, mapsize]
     LET py == [i \in DOMAIN s.py |-> [pos |-> s.py[i], size |-> ElemSize(s.letters[i])]]
